@@ -120,6 +120,13 @@ impl TypedProgram {
                     ));
                     continue;
                 };
+                if !literal.is_of_type(self, ty) {
+                    errs.push(CompilerError::InvalidLiteralType(
+                        literal.clone(),
+                        ty.clone(),
+                    ));
+                    continue;
+                }
                 let identifier = format!("{party}::{c}");
                 match literal {
                     Literal::NumUnsigned(n, _) => {
